@@ -230,6 +230,21 @@ func c11Spec(rng *rand.Rand, gc, cr bool) (*world.Spec, []string) {
 				}
 				l.PceSvn = sgx.PceSvn
 				l.Status = allStatuses[rng.IntN(len(allStatuses))]
+				// … or below it in other places: the comparison is per component, not of the vector as one number, so a lower
+				// earlier component does not make up for the one that exceeds
+				if rng.IntN(2) == 0 {
+					for k := 0; k < 16; k++ {
+						if rng.IntN(3) == 0 && sgx.Comps[k] > 0 {
+							l.Sgx[k] = rng.IntN(sgx.Comps[k])
+						}
+						if rng.IntN(3) == 0 && k >= start && tee[k] > 0 {
+							l.Tdx[k] = rng.IntN(int(tee[k]))
+						}
+					}
+					if sgx.PceSvn > 0 && rng.IntN(3) == 0 {
+						l.PceSvn = rng.IntN(sgx.PceSvn)
+					}
+				}
 			}
 			m := misses[rng.IntN(len(misses))]
 			switch m.kind {
